@@ -50,6 +50,8 @@ type Config struct {
 	MaxSteps     int64 // scheduling points before the run is cut (reported as step-bound)
 	Race         bool  // happens-before race checking of instrumented accesses
 	ShuffleMaps  bool  // draw a permutation for every instrumented map range (false: sorted order)
+	StallsMuted  bool  // draw stall faults as configured but add no time
+	FreezeClock  bool  // virtual time never advances through yields or stalls (same draws, same schedule): used to attribute a violation to the clock
 	StallEvery   int   // a clock stall fault is considered at a scheduling point with probability 1/StallEvery (0 = off)
 	CostPerYield int64 // virtual ns added per yield site passed
 	Trace        bool
@@ -445,6 +447,9 @@ func (sim *Sim) schedPoint(site int, what string, block func() bool) {
 	}
 	if sim.Cfg.StallEvery > 0 && sim.S.Draw(sim.Cfg.StallEvery, "stall?") == 0 {
 		d := []int64{1e6, 50e6, 400e6, 1500e6, 3600e9}[sim.S.Draw(5, "stall-len")]
+		if sim.Cfg.StallsMuted || sim.Cfg.FreezeClock {
+			d = 0
+		}
 		sim.now += d
 		sim.rep.Counters["fault_clock_stall"]++
 		if d >= 1e9 {
@@ -561,7 +566,9 @@ func (sim *Sim) yield(site int) {
 		return
 	}
 	sim.rep.YieldsPassed++
-	sim.now += sim.Cfg.CostPerYield
+	if !sim.Cfg.FreezeClock {
+		sim.now += sim.Cfg.CostPerYield
+	}
 	if sim.Cfg.YieldBudget == 0 {
 		return
 	}
